@@ -5,7 +5,10 @@
    PROVED here, for all inputs:  null_iff, whole_edit, indentation (indent_lines, indent_unit, block_lines,
    nested_lines, proc_stmt_lines, proc_var_lines), canonical form (printer and parser read token kinds only, hence
    two documents with the same token kinds format identically).
-   STATED, NOT PROVED (needs the parser round trip of C04):  C11_idempotent_full_statement. *)
+   Sections 6-8: idempotence PROVED for every document that is a layout of a valid abstract program - comment-free (6), with
+   comments in leading positions (7), and with comments ANYWHERE (8: C11_idempotent_any, C11_idempotent_document_any).
+   STATED ONLY: C11_idempotent_full_statement in the form with the hypothesis `syntactically_valid doc` (its instance for all
+   layouts of valid abstract programs is C11_idempotent_document_any). *)
 From Coq Require Import String.
 From Spl Require Import Model.Format Model.Lexer Proofs.FormatProofs Proofs.ParseKinds.
 From Spl Require Model.Doc.
@@ -266,8 +269,8 @@ Qed.
    tree with other doc fields; the printers read of a token only its printed form, whether it is a comment and whether it is a
    literal (a relational argument over all printers), never read a doc field, and `trim (" " ++ trim s) = trim s` - so the
    second run prints the same text.  This is [C11_idempotent_full_statement] for every document that is a layout of a valid
-   program with comments in leading position only.  Open: comments in the other gaps (where the first run loses the comment
-   or moves it in front of the construct). *)
+   program with comments in leading position only.  Comments in the other gaps (where the first run loses the comment or moves
+   it in front of the construct): section 8. *)
 From Spl Require Import Proofs.FormatStructIdem.
 
 Theorem C11_idempotent_lead : forall p toks ins ts txt,
@@ -319,4 +322,76 @@ Proof.
   assert (H3 : aprog_valid c11_cprog = true) by (vm_compute; reflexivity).
   assert (H5 : map tk toks = flatten c11_cprog ++ [Eof]) by (vm_compute in El; injection El as <-; vm_compute; reflexivity).
   exact (C11_idempotent_document_lead c11_cprog c11_cdoc toks ins ts H1 H2 H3 El H5).
+Qed.
+
+(* ================================================================================================
+   8. Idempotence with comments ANYWHERE - PROVED (Proofs/FormatAny*.v)
+
+   No hypothesis on the comment slots.  The printer's result is a function [pp_prog] of the abstract program that ignores the
+   comment slots no printer reads and puts the comments of an assignment / call / parameter / variable declaration in front of
+   it; [kept p] (Props/C09.v section 7) is p with the comments rearranged accordingly: it is printed to the same text
+   (C11_same_text), has its comments in leading positions only, is valid and has the dangling-else shape of p.  So the
+   formatted text of p IS the formatted text of [kept p], and section 7 applies: formatting it again answers null.
+   [C11_idempotent_document_any] is [C11_idempotent_full_statement] for every document that is a layout of a valid abstract
+   program, wherever its comments stand. *)
+From Spl Require Import Proofs.FormatAnyKept Proofs.FormatAnyThm.
+
+Theorem C11_same_text : forall p toks toksk f,
+  map tk toks = flatten p ++ [Eof] -> map tk toksk = flatten (kept p) ++ [Eof] ->
+  fmt_program f (expected (kept p)) toksk = fmt_program f (expected p) toks.
+Proof. exact fmt_kept. Qed.
+Print Assumptions C11_same_text.
+
+Theorem C11_kept_lead_only : forall p,
+  aprog_valid p = true -> lead_only (kept p) = true /\ aprog_valid (kept p) = true /\ prog_ok (kept p) = prog_ok p.
+Proof. intros p H. split; [apply kept_lead_only; exact H | split; [apply kept_valid; exact H | apply kept_prog_ok]]. Qed.
+Print Assumptions C11_kept_lead_only.
+
+Theorem C11_idempotent_any : forall p toks ins ts txt,
+  prog_ok p = true -> aprog_valid p = true -> map tk toks = flatten p ++ [Eof] ->
+  fmt_program (options_of ins ts) (expected p) toks = FOk txt ->
+  format_request txt ins ts = Done None.
+Proof. exact idempotent_any. Qed.
+Print Assumptions C11_idempotent_any.
+
+Theorem C11_idempotent_document_any : forall p doc toks ins ts,
+  prog_ok p = true -> aprog_valid p = true ->
+  lex doc = Some toks -> map tk toks = flatten p ++ [Eof] ->
+  exists out, formatted_text doc ins ts = Done out /\ format_request out ins ts = Done None.
+Proof. exact idempotent_document_any. Qed.
+Print Assumptions C11_idempotent_document_any.
+
+(* comments between a parameter's name and `:`, in front of `)`, inside an expression, between `if` and `(`, in front of a
+   block's `}`, in front of EOF (and two in leading positions) *)
+Definition c11_aprog : aprog :=
+  {| a_decls :=
+       [DProc [str "d"] [] (str "main") []
+          (Some (PVal [] (str "a") [str " p1"] (TName [] (str "int")), [])) [str " p2"] [] []
+          (SCons (SAsg (AName [] (str "x")) [] (c11_f (FLit [str " e"] (LDec 1))) [])
+          (SCons (SIfT [] [str " i"] (c11_f (FVar (AName [] (str "a")))) [] (SBlk [] (SCons (SEmp [str " s"]) SNil) [str " b"])) SNil)) []];
+     a_ceof := [str " eof"] |}.
+Definition c11_adoc : text :=
+  str "//d" ++ [10] ++ str "proc main(a// p1" ++ [10] ++ str ":int// p2" ++ [10] ++ str "){x:=// e" ++ [10] ++ str "1;if// i" ++ [10]
+  ++ str "(a){// s" ++ [10] ++ str ";// b" ++ [10] ++ str "}}// eof" ++ [10].
+Definition c11_aout : text :=
+  str "// d" ++ [10] ++ str "proc main(" ++ [10; 9] ++ str "// p1" ++ [10; 9] ++ str "a: int" ++ [10] ++ str ") {" ++ [10; 9]
+  ++ str "// e" ++ [10; 9] ++ str "x := 1;" ++ [10; 9] ++ str "if (a) {" ++ [10; 9; 9] ++ str "// s" ++ [10; 9; 9] ++ str ";" ++ [10; 9]
+  ++ str "}" ++ [10] ++ str "}" ++ [10].
+
+Example C11_idempotent_any_ex :
+  prog_ok c11_aprog = true /\ lead_only c11_aprog = false /\ aprog_valid c11_aprog = true
+  /\ match lex c11_adoc with Some toks => map tk toks = flatten c11_aprog ++ [Eof] | None => False end
+  /\ formatted_text c11_adoc false 4 = Done c11_aout /\ format_request c11_aout false 4 = Done None
+  /\ format_request c11_aout true 4 <> Done None
+  /\ lead_only (kept c11_aprog) = true.
+Proof. vm_compute. repeat split; try reflexivity. discriminate. Qed.
+
+Example C11_idempotent_document_any_ex : forall ins ts,
+  exists out, formatted_text c11_adoc ins ts = Done out /\ format_request out ins ts = Done None.
+Proof.
+  intros ins ts. destruct (lex c11_adoc) as [toks|] eqn:El; [|vm_compute in El; discriminate].
+  assert (H1 : prog_ok c11_aprog = true) by (vm_compute; reflexivity).
+  assert (H3 : aprog_valid c11_aprog = true) by (vm_compute; reflexivity).
+  assert (H5 : map tk toks = flatten c11_aprog ++ [Eof]) by (vm_compute in El; injection El as <-; vm_compute; reflexivity).
+  exact (C11_idempotent_document_any c11_aprog c11_adoc toks ins ts H1 H3 El H5).
 Qed.
